@@ -401,7 +401,7 @@ pub fn exec_c19_dyn(c: &C19Case) -> CaseResult {
 }
 
 pub fn run_c19_check(tier: &str, seed: u64) -> Outcome {
-    let (cases, shards) = if tier == "thorough" { (3000u32, 16u32) } else { (700, 4) };
+    let (cases, shards) = if tier == "thorough" { (6000u32, 16u32) } else { (1500, 6) };
     let threads = std::thread::available_parallelism().map(|n| n.get()).unwrap_or(4).min(16);
     let mut jobs = Vec::new();
     for t in crate::tp::ALL_TYPES {
